@@ -56,7 +56,9 @@ pub fn project(files : &BTreeMap<String, VFileData>, dirs : &BTreeSet<String>, f
         }
         else if let Some(name) = p.strip_prefix(&hist_pre)
         {
-            if name.ends_with(".tmp") { continue; }
+            /* a rule's history is the file named by the rule's ticket; anything else in the directory is scratch space of ruler's (a temporary
+               file on its way to be renamed) and is never read back */
+            if !is_ticket_name(name) { continue; }
             let rid = names.rids.get(name).cloned().unwrap_or(format!("?{}", name));
             match decode_history(&f.data)
             {
@@ -73,7 +75,7 @@ pub fn project(files : &BTreeMap<String, VFileData>, dirs : &BTreeSet<String>, f
                 None => htorn.push(rid),
             }
         }
-        else if p.starts_with(&format!("{}/", dir)) { if *p != table_path && !p.ends_with(".tmp") { other.push(p.clone()); } }
+        else if p.starts_with(&format!("{}/", dir)) { if *p != table_path && !is_scratch_of(p, &table_path) { other.push(p.clone()); } }
         else if ord.contains(p) { ws.insert(p.clone(), file_json(f, label(&f.data), &rank)); }
     }
     let mut fstab = Map::new();
@@ -96,3 +98,8 @@ pub fn project(files : &BTreeMap<String, VFileData>, dirs : &BTreeSet<String>, f
                      "tab" : tab, "htorn" : htorn, "nodir" : nodir},
            "other" : other})
 }
+
+/* the text form of a ticket: 43 characters 0-9 a-z A-Z */
+pub fn is_ticket_name(name : &str) -> bool { name.len() == 43 && name.bytes().all(|c| c.is_ascii_alphanumeric()) }
+/* a scratch file next to the table file: <table path> with a suffix */
+fn is_scratch_of(p : &str, table_path : &str) -> bool { p.len() > table_path.len() && p.starts_with(table_path) }
